@@ -27,7 +27,7 @@ def fault_params(tier):
     D, L = fault_cfg(tier)
     shp = SHAPES_Q if tier == "quick" else SHAPES_T
     ps = [P("shape", 0, len(shp) - 1), P("fnode", 0, 3 if tier == "quick" else 4), P("phase", 0, 2), P("moment", 0, 1),
-          P("exckind", 0, 1), P("svc", 0, 2)]
+          P("exckind", 0, 1), P("svc", 0, 3)]
     for j in range(D):
         ps += [P(f"gap{j}", 0, L), P(f"arm{j}", 0, 4)]
     return ps
@@ -43,7 +43,9 @@ def fault_fn(a, tier):
     phase = pick(a["phase"], 3)
     moment = pick(a["moment"], 2) if phase else 0
     exckind = pick(a["exckind"], 2)
-    svc = pick(a["svc"], 3)  # 0: no service; 1: other nodes start a service slowly in start(); 2: ... whose startup stalls forever
+    # 0: nothing; 1: other nodes start a service slowly in start(); 2: ... whose startup stalls forever;
+    # 3: other nodes start a task factory and a task with a slow start-up in it
+    svc = pick(a["svc"], 4)
     tape = DeviationTape([(a[f"gap{j}"], a[f"arm{j}"]) for j in range(D)], L)
     env = Env()
     exc = Boom("boom") if exckind == 0 else ComponentStartError("starting", "bogus.path", Component)
@@ -54,7 +56,9 @@ def fault_fn(a, tier):
     for i in range(n):
         prep = [("td", f"prep{i}"), ("cp",), ("pub", f"res{i}", object(), "default", [RT[i]]), ("cp",)]
         start = [("cp",), ("td", f"start{i}"), ("cp",)]
-        if svc and i != fnode and not (svc == 2 and i in below):
+        if svc == 3 and i != fnode:
+            start.insert(1, ("tf", f"job{i}", 2))
+        elif svc and i != fnode and not (svc == 2 and i in below):
             start.insert(1, ("svc", f"svc{i}", 2, svc == 2))
         node = NodeSpec(i, parents[i], prep, start)
         if i == fnode:
@@ -85,7 +89,7 @@ def fault_fn(a, tier):
 
     _, escaped, k = run(main, chooser=tape)
     summary = {"parents": parents, "failing_component": fnode, "phase": PHASES[phase], "moment": ["first statement", "after a checkpoint"][moment],
-               "exception": type(exc).__name__, "others_start_service": ["no", "slow startup", "startup stalls forever"][svc], "schedule": tape.taken}
+               "exception": type(exc).__name__, "others_start_service": ["no", "slow startup", "startup stalls forever", "a task factory task with a slow start-up"][svc], "schedule": tape.taken}
     if escaped is not None:
         return FAIL(f"fault:escaped:{type(escaped).__name__}", f"{escaped!r} log={env.log}", summary)
     e = out["outcome"]
@@ -139,7 +143,7 @@ FAULT = Harness(
     title="one component fails in one phase at one moment; every tree shape; deviation-bounded schedules",
     bound_text=lambda tier: f"all rooted trees with 1..{4 if tier == 'quick' else 5} components x failing component x phase{{creating,preparing,starting}} x "
     "moment{first statement, after a checkpoint} x exception{plain Exception, a ComponentStartError instance} x other components "
-    "{no service, start a service task with a slow start-up, with a start-up that never completes}; FIFO schedule with "
+    "{no service, start a service task with a slow start-up, with a start-up that never completes, start a task-factory task with a slow start-up}; FIFO schedule with "
     + ("one deviation within the first 8 decisions" if tier == "quick" else "two deviations (each within 10 decisions)"),
     oracle="ComponentStartError(phase, path, class) with __cause__ the original exception object; no start() of any ancestor; no startup/watchdog "
     "task alive and nothing of the tree logged after start_component raised (context kept open past the start timeout); an interrupted "
@@ -152,7 +156,7 @@ FAULT = Harness(
 # ------------------------------------------------------------------------------ F-time
 def time_params(tier):
     hi = 6 if tier == "quick" else 9
-    return [P("svc", 0, 1), P("dp", 1, hi), P("da", 1, hi), P("db", 1, hi), P("dg", 1, hi), P("ds", 1, hi), P("T", 1, 4 * hi)]
+    return [P("svc", 0, 5), P("dp", 1, hi), P("da", 1, hi), P("db", 1, hi), P("dg", 1, hi), P("ds", 1, hi), P("T", 1, 4 * hi)]
 
 
 def time_pre(tier):
@@ -161,10 +165,11 @@ def time_pre(tier):
 
 def time_fn(a, tier):
     dp, da, db, dg, ds, T = a["dp"], a["da"], a["db"], a["dg"], a["ds"], a["T"]
-    svc = pick(a["svc"], 2)
+    svc = pick(a["svc"], 6)
     env = Env()
     # root(prepare dp, start ds) -> a (start da after its child g: start dg), b (start db [+ stalled service start])
-    b_start = [("sleep", db)] + ([("svc", "stall", 1, True)] if svc else [])
+    STALLS = {1: ("svc", "stall", 1, True), 2: ("stall", "anext"), 3: ("stall", "aclose"), 4: ("stall", "event"), 5: ("stall", "sleep")}
+    b_start = [("sleep", db)] + ([STALLS[svc]] if svc else [])
     nodes = [
         NodeSpec(0, -1, [("sleep", dp)], [("sleep", ds)]),
         NodeSpec(1, 0, None, [("sleep", da)]),
@@ -192,7 +197,7 @@ def time_fn(a, tier):
     _, escaped, k = run(main)
     if escaped is not None:
         return FAIL(f"time:escaped:{type(escaped).__name__}", repr(escaped))
-    summary = {"tree": "root(prepare dp, start ds) -> a(start da) -> g(start dg); root -> b(start db" + (", then a service whose start-up never completes)" if svc else ")"),
+    summary = {"tree": "root(prepare dp, start ds) -> a(start da) -> g(start dg); root -> b(start db" + (", then stalls forever in: " + ["", "a service task start-up", "await anext(async generator)", "await agen.aclose()", "Event.wait()", "sleep_forever()"][svc] + ")" if svc else ")"),
                "durations_and_timeout": "symbolic integers"}
     with resumed():
         return time_oracle(svc, dp, da, db, dg, ds, T, out, summary)
@@ -220,7 +225,7 @@ TIME = Harness(
     cube=lambda tier: 1,
     title="symbolic phase durations against a symbolic start timeout (virtual integer clock, timer ordering decided by z3)",
     bound_text=lambda tier: f"4-component tree, five phase durations in 1..{6 if tier == 'quick' else 9} ticks and timeout in 1..{24 if tier == 'quick' else 36}, all symbolic "
-    "(exact ties between finishing time and timeout excluded); optionally a service task whose start-up never completes",
+    "(exact ties between finishing time and timeout excluded); optionally a component that then stalls forever in a service start-up / anext() of an async generator / aclose() / Event.wait() / sleep_forever()",
     oracle="finishing time from the reference recurrence f = prepare + max(children) + start: f < T => success at time f with the complete log, "
     "nothing later; f > T (or stalled) => TimeoutError exactly at T and no tree activity afterwards",
     outside="exact ties (the two real backends differ there); timeout <= 0; float durations",
